@@ -247,7 +247,13 @@ NORMAL_SHAPES = [lambda: shape_get(), lambda: shape_get(method=b"HEAD"), lambda:
 SMALL_SHAPES = [shape_bighdr, shape_chunkext]
 
 BEHS = ["", "f=r0", "f=r3", "f=no", "f=s1", "f=s1 l=no", "u=2", "u=0", "u=1,all", "ur=0:r0", "us=0:1", "us=1:2 u=3",
-        "l=r3", "l=no", "l=s2", "l=r9", "f=r9", "l=c"]
+        "l=r3", "l=no", "l=s2", "l=r9", "f=r9", "l=c",
+        # interim (102 Processing) replies: r5 / r6 (with free callback); `l` lists the actions of the successive calls
+        # without upload data after the first one.  Upgrade: r7 (101); r8 = upgrade object with a wrong status code (refused)
+        "f=r5 l=c,r0", "f=r6 l=r3", "l=r5,c,r0", "l=r6,r5,r0", "l=r5,no", "l=r5,s1,r0", "f=r7", "l=r7", "f=r5 l=r7", "f=r8"]
+NEW_BEHS_FROM = 18
+# random histories: interim replies only for the last request of a connection (no pipelined bytes behind it), see F30 note in explore()
+INTERIM_ONLY_LAST = True
 
 
 SMALL_BEHS = ["", "u=2", "l=no", "f=no", "u=0"]
@@ -263,17 +269,19 @@ class Case:
         self.lines += ls
 
 
-def case_header(cs, mode, mem, suspend=True, timeout=5, extra="", urilog=True):
-    cs.add("case " + cs.name, "cfg mode=%s mem=%d timeout=%d suspend=%d urilog=%d%s" % (mode, mem, timeout, 1 if suspend else 0,
-                                                                                      1 if urilog else 0, extra), "start",
-           "resp 3 kind=freecb size=7", "resp 9 kind=copy size=4 code=99")
+def case_header(cs, mode, mem, suspend=True, timeout=5, extra="", urilog=True, upgrade=True):
+    cs.add("case " + cs.name, "cfg mode=%s mem=%d timeout=%d suspend=%d urilog=%d upgrade=%d%s" % (
+        mode, mem, timeout, 1 if suspend else 0, 1 if urilog else 0, 1 if upgrade else 0, extra), "start",
+           "resp 3 kind=freecb size=7", "resp 9 kind=copy size=4 code=99",
+           "resp 5 kind=copy size=4 code=102", "resp 6 kind=freecb size=3 code=102", "resp 7 kind=upgrade code=101",
+           "resp 8 kind=upgrade code=200")
 
 
 def send_line(c, shape, lo, hi):
     return "send %d %s %s" % (c, _hx(shape.data[lo:hi]), " ".join(shape.tokens_for(lo, hi)))
 
 
-def gen_placement(shape_f, mode, beh, phase_idx, action, after, mid, urilog=True):
+def gen_placement(shape_f, mode, beh, phase_idx, action, after, mid, urilog=True, upclose=True):
     """one request shape; the client sends up to a phase boundary (or into the middle of the next
     element), everything settles, then ONE action; then (unless the action ended the exchange)
     the rest is sent and everything settles again; finally stop"""
@@ -292,8 +300,8 @@ def gen_placement(shape_f, mode, beh, phase_idx, action, after, mid, urilog=True
         cut = cut + (nxt[0] - cut) // 2
     if sh.small and beh not in SMALL_BEHS:
         return None          # replies of the application in a 300-byte arena fail for lack of pool space (not modelled)
-    cs = Case("pl-%s-%s-p%d%s-%s-%s-%s%s" % (sh.name, mode, phase_idx, "m" if mid else "", beh.replace(" ", "_").replace("=", "") or "dflt",
-                                            action, after, "" if urilog else "-nouri"))
+    cs = Case("pl-%s-%s-p%d%s-%s-%s-%s%s%s" % (sh.name, mode, phase_idx, "m" if mid else "", beh.replace(" ", "_").replace("=", "").replace(",", ".") or "dflt",
+                                              action, after, "" if urilog else "-nouri", "-upc" if ("r7" in beh and upclose) else ""))
     mem = 300 if sh.small else 8192
     if sh.name == "errhdr-small-arena":
         mem = 256
@@ -302,7 +310,7 @@ def gen_placement(shape_f, mode, beh, phase_idx, action, after, mid, urilog=True
         cs.add("beh 0 0 " + beh)
     cs.add("arrive 0 1")
     cs.bodies[(0, 0)] = sh.body
-    st = sh.settle + (8 if "s" in beh else 0)
+    st = sh.settle + (8 if "s" in beh else 0) + 4 * (beh.count("r5") + beh.count("r6"))
     if cut > 0:
         cs.add(send_line(0, sh, 0, cut), "settle %d" % st)
     else:
@@ -328,6 +336,9 @@ def gen_placement(shape_f, mode, beh, phase_idx, action, after, mid, urilog=True
             g = shape_get()
             cs.bodies[(0, 1)] = b""
             cs.add(send_line(0, g, 0, len(g.data)), "settle 8")
+        if "r7" in beh and upclose:
+            # the application closes the upgraded connection (when there is none the op is refused on both sides)
+            cs.add("up-close 0", "settle 3")
         cs.add("stop")
     cs.tags = [sh.name, mode, action, "beh:" + (beh or "dflt")]
     return cs
@@ -347,6 +358,8 @@ def gen_random(rng, idx):
             reqs.append(sh)
             cs.bodies[(c, r)] = sh.body
             b = rng.choice(BEHS)
+            while INTERIM_ONLY_LAST and r < nreq - 1 and ("r5" in b or "r6" in b):
+                b = rng.choice(BEHS)
             if b:
                 cs.add("beh %d %d %s" % (c, r, b))
         plans.append(reqs)
@@ -389,7 +402,11 @@ def gen_random(rng, idx):
             cs.add("%s %d" % (a, k), "settle 24")
             alive[k] = False
     if not stopped:
-        cs.add("settle 24", "stop")
+        cs.add("settle 24")
+        for c in range(nconn):
+            if rng.random() < 0.5:
+                cs.add("up-close %d" % c, "settle 3")
+        cs.add("stop")
     cs.tags = ["random", mode, "conns:%d" % nconn]
     return cs
 
@@ -509,6 +526,112 @@ def gen_fault_cases():
     return out
 
 
+def gen_interim_upgrade_cases():
+    """fixed scripts around interim (102) and upgrade (101) responses that the placement grid does not reach:
+    responses queued from outside the handler while the connection is suspended, failure of
+    MHD_response_execute_upgrade_ (allocation), events that must not touch an upgraded connection
+    (time-out, resume, client close, pipelined bytes), daemon stop with / without MHD_UPGRADE_ACTION_CLOSE,
+    several requests with interim replies on one keep-alive connection, upgrade on a daemon without MHD_ALLOW_UPGRADE"""
+    out = []
+    for mode in ("select", "epoll"):
+        for urilog in (True, False):
+            for shf in (lambda: shape_get(), lambda: shape_post_cl(5), lambda: shape_post_chunked((4,), False)):
+                for kind in ("outq-interim", "outq-upgrade", "outq-interim-upgrade", "upgrade-allocfail", "upgrade-allocfail-handler",
+                             "upgrade-idle-events", "upgrade-stop-open", "upgrade-close-then-events", "interim-keepalive-x2",
+                             "interim-then-timeout", "interim-then-cclose", "upgrade-not-allowed", "interim-x3", "upgrade-pipelined"):
+                    sh = shf()
+                    cs = Case("iu-%s-%s-%s%s-%d" % (kind, sh.name, mode, "" if urilog else "-nouri", len(out)))
+                    case_header(cs, mode, 8192, urilog=urilog, upgrade=(kind != "upgrade-not-allowed"))
+                    cs.bodies[(0, 0)] = sh.body
+                    full = send_line(0, sh, 0, len(sh.data))
+                    if kind == "outq-interim":
+                        cs.add("beh 0 0 l=s40,c,r3", "arrive 0 1", full, "settle 6", "reply-out 0 5", "settle 2", "resume 0", "settle 12")
+                    elif kind == "outq-upgrade":
+                        cs.add("beh 0 0 l=s40", "arrive 0 1", full, "settle 6", "reply-out 0 7", "settle 2", "resume 0", "settle 8",
+                               "up-close 0", "settle 3")
+                    elif kind == "outq-interim-upgrade":
+                        cs.add("beh 0 0 f=s40 l=s40,c", "arrive 0 1", full, "settle 6", "reply-out 0 6", "settle 2", "resume 0", "settle 8",
+                               "reply-out 0 7", "resume 0", "settle 8", "up-close 0", "settle 3")
+                    elif kind == "upgrade-allocfail":
+                        # response queued from outside while suspended; the next allocation of the library is the upgrade handle
+                        cs.add("beh 0 0 l=s40", "arrive 0 1", full, "settle 6", "reply-out 0 7", "fail-calloc 0", "resume 0", "settle 8")
+                    elif kind == "upgrade-allocfail-handler":
+                        # (the response object and its "Connection" header are allocated by the library first: third allocation from now)
+                        cs.add("beh 0 0 l=s3,r7", "arrive 0 1", full, "settle 2", "fail-calloc 2", "settle 10")
+                    elif kind == "upgrade-idle-events":
+                        cs.add("beh 0 0 l=r7", "arrive 0 1", full, "settle 8", "tick 6000", "settle 3", "resume 0", "settle 3",
+                               "reply-out 0 0", "settle 2", "cclose 0", "settle 3")
+                    elif kind == "upgrade-stop-open":
+                        cs.add("beh 0 0 f=r7", "arrive 0 1", full, "settle 8")
+                    elif kind == "upgrade-close-then-events":
+                        cs.add("beh 0 0 l=r7", "arrive 0 1", full, "settle 8", "up-close 0", "up-close 0", "tick 6000", "settle 1", "resume 0", "settle 3")
+                    elif kind == "interim-keepalive-x2":
+                        g = shape_get()
+                        cs.bodies[(0, 1)] = b""
+                        cs.bodies[(0, 2)] = b""
+                        cs.add("beh 0 0 l=r5,c,r0", "beh 0 1 l=r6,c,r5,c,r3", "beh 0 2 f=r5 l=c,r0", "arrive 0 1", full, "settle 12",
+                               send_line(0, g, 0, len(g.data)), "settle 16", send_line(0, g, 0, len(g.data)), "settle 12")
+                    elif kind == "interim-then-timeout":
+                        cs.add("beh 0 0 l=r5,c,c", "arrive 0 1", full, "settle 10", "tick 6000", "settle 4")
+                    elif kind == "interim-then-cclose":
+                        cs.add("beh 0 0 f=r5 l=s2,c", "arrive 0 1", full, "settle 1", "cclose 0", "settle 10")
+                    elif kind == "upgrade-not-allowed":
+                        cs.add("beh 0 0 l=r7", "arrive 0 1", full, "settle 8")
+                    elif kind == "interim-x3":
+                        cs.add("beh 0 0 f=r5 l=r6,c,r5,r3", "arrive 0 1", full, "settle 24")
+                    elif kind == "upgrade-pipelined":
+                        g = shape_get()
+                        cs.add("beh 0 0 l=r7", "arrive 0 1", "send 0 %s %s" % (_hx(sh.data + g.data), " ".join(sh.tokens_for(0, len(sh.data)) +
+                                                                                                       g.tokens_for(0, len(g.data)))),
+                               "settle 8", "up-close 0", "settle 3")
+                    cs.add("stop")
+                    cs.tags = ["iu-" + kind, mode]
+                    out.append(cs)
+    return out
+
+
+def interim_buffer_fixed():
+    """syntactic probe of connection_shrink_read_buffer(): does it leave alone a read buffer that has the needed size
+    already?  Without that, the second START_REPLY of one request (after a 102 reply) loses the pipelined bytes that
+    wait in the read buffer: the block is no longer the last one of the pool, MHD_pool_reallocate() tries to move it,
+    fails (the write buffer holds all free space), read_buffer becomes NULL with read_buffer_offset != 0, and
+    connection_reset() then parses stale bytes of the previous request as the next one (finding F30 of builder b-c05,
+    patch build/fixes/F30_interim_pipelined.diff)."""
+    b = _func_body(extract.src("src/microhttpd/connection.c"), "connection_shrink_read_buffer")
+    if b is None:
+        return False
+    b = _strip_c_comments(b)
+    return bool(re.search(r"read_buffer_size\s*!=\s*c->read_buffer_offset|read_buffer_offset\s*!=\s*c->read_buffer_size|"
+                          r"read_buffer_size\s*==\s*c->read_buffer_offset|MHD_pool_is_resizable_inplace\s*\([^;]*\)\s*\)\s*\n?\s*\{",
+                          re.sub(r"mhd_assert\s*\(.*?\)\s*;", "", b, flags=re.S)))
+
+
+def gen_interim_pipelined_cases():
+    """interim reply while the bytes of the next request wait in the read buffer (keep-alive connection): the next
+    request must be served (or handed to the upgrade handler as extra data).  Run only on a tree with the F30 repair,
+    or when C05_F30=1 (on an unrepaired tree they show the defect: model/code differ, upgrade handler gets NULL)."""
+    out = []
+    for mode in ("select", "epoll"):
+        for shf in (lambda: shape_get(), lambda: shape_post_cl(5), lambda: shape_post_chunked((4,), False)):
+            for beh in ("l=r5,c,r0", "l=r6,c,r5,c,r3", "l=r5,c,r7", "l=r5,s1,c,r0"):
+                for cut in (None, 3, 12):
+                    sh, g = shf(), shape_get()
+                    cs = Case("f30-%s-%s-%s-%s-%d" % (sh.name, mode, beh.replace("=", "").replace(",", "."), cut, len(out)))
+                    case_header(cs, mode, 8192)
+                    cs.bodies[(0, 0)] = sh.body
+                    cs.bodies[(0, 1)] = b""
+                    n = len(g.data) if cut is None else cut
+                    cs.add("beh 0 0 " + beh, "arrive 0 1",
+                           "send 0 %s %s" % (_hx(sh.data + g.data[:n]), " ".join(sh.tokens_for(0, len(sh.data)) + g.tokens_for(0, n))),
+                           "settle 24")
+                    if n < len(g.data):
+                        cs.add(send_line(0, g, n, len(g.data)), "settle 8")
+                    cs.add("up-close 0", "settle 3", "stop")
+                    cs.tags = ["f30-interim-pipelined", mode]
+                    out.append(cs)
+    return out
+
+
 # --------------------------------------------------------------------------
 # log handling
 
@@ -570,7 +693,7 @@ def canon(lines, harness):
         if not w:
             continue
         k = w[0]
-        if k in ("conn-start", "conn-close", "uri-log", "completed", "sst", "handler", "took"):
+        if k in ("conn-start", "conn-close", "uri-log", "completed", "sst", "handler", "took", "interim-done", "interim-sent", "upgrade"):
             d = _kv(l)
             try:
                 c = int(d["c"])
@@ -582,6 +705,11 @@ def canon(lines, harness):
             push(c, "close")
         elif k == "uri-log":
             push(c, "uri")
+        elif k in ("interim-done", "interim-sent"):
+            # code: the handler is entered again after an accepted 102 response; model: FULL_REPLY_SENT -> HEADERS_PROCESSED
+            push(c, "interim")
+        elif k == "upgrade":
+            push(c, "upgrade")
         elif k == "completed":
             push(c, "done:" + d["code"])
         elif k == "sst":
@@ -628,10 +756,14 @@ class ProtocolOracle:
     handler call, with the request's context; nothing left open when the daemon has stopped;
     strings stable until completion (the harness' `unstable` / `protocol-error` lines)."""
 
-    def __init__(self, bodies):
+    def __init__(self, bodies, f30=True):
+        self.f30 = f30       # flag the NULL extra-data pointer of finding F30 (see interim_buffer_fixed)
+        self.f30_seen = 0
         self.bodies = bodies
         self.conn = {}       # c -> dict(state)
         self.errors = []
+        self.wire = {}       # c -> bytes the client received
+        self.interims = {}   # c -> number of times the handler was asked again after an interim response
 
     def err(self, msg):
         if len(self.errors) < 5:
@@ -644,16 +776,28 @@ class ProtocolOracle:
             return
         k = w[0]
         if k in ("unstable", "protocol-error"):
+            if "upgrade-handler-given-NULL" in line:
+                self.f30_seen += 1
+                if not self.f30:
+                    return
             self.err("%s reported by the harness: %s" % (k, line[:160]))
             return
+        if k == "wire" and len(w) >= 3:
+            c = int(w[1].partition("=")[2])
+            self.wire[c] = self.wire.get(c, b"") + bytes.fromhex(w[2])
+            return
         if k == "stopped":
+            for c, n in self.interims.items():
+                if self.wire.get(c, b"").count(b"HTTP/1.1 102 ") < n:
+                    self.err("handler asked again after an interim response %d times on connection %d but only %d interim "
+                             "status lines reached the client" % (n, c, self.wire.get(c, b"").count(b"HTTP/1.1 102 ")))
             for c, s in self.conn.items():
                 if s["open"] is not None:
                     self.err("request presented on connection %d but never completed (daemon stopped)" % c)
                 if not s["closed"]:
                     self.err("connection %d started but close notification missing after daemon stop" % c)
             return
-        if k not in ("conn-start", "conn-close", "uri-log", "handler", "took", "ret", "queued", "completed"):
+        if k not in ("conn-start", "conn-close", "uri-log", "handler", "took", "ret", "queued", "completed", "upgrade"):
             return
         d = _kv(line)
         try:
@@ -681,7 +825,8 @@ class ProtocolOracle:
         elif k == "uri-log":
             if rq is not None:
                 self.err("URI of a new request logged before completion of the previous one")
-            s["open"] = {"r": None, "site": 0, "taken": 0, "replied": False, "failed": False, "pending": None, "calls": 0}
+            s["open"] = {"r": None, "site": 0, "taken": 0, "replied": False, "failed": False, "pending": None, "calls": 0,
+                         "interim": False, "upgraded": False, "kind": None}
         elif k == "handler":
             if "state" not in d or "phase" not in d or "up" not in d or "r" not in d:
                 self.err("malformed handler record: " + line[:100])
@@ -692,9 +837,18 @@ class ProtocolOracle:
                 return
             rank = {"first": 0, "upload": 1, "final": 2}[site]
             if rq is None:      # (possible only without URI log callback)
-                rq = s["open"] = {"r": None, "site": 0, "taken": 0, "replied": False, "failed": False, "pending": None, "calls": 0}
+                rq = s["open"] = {"r": None, "site": 0, "taken": 0, "replied": False, "failed": False, "pending": None, "calls": 0,
+                                  "interim": False, "upgraded": False, "kind": None}
             if d.get("aware") != "1":
                 self.err("handler called with client_aware unset")
+            if rq["replied"] and rq["interim"] and not rq["upgraded"]:
+                # after an interim (102) response another response may be queued: the handler is asked again, starting
+                # over at the first call site, same context, no upload data
+                rq["replied"] = rq["interim"] = False
+                self.interims[c] = self.interims.get(c, 0) + 1
+                if site != "first" or d["up"] != "-":
+                    self.err("call after an interim response is not a call without data from the first call site")
+                rq["site"] = 0
             if rq["replied"]:
                 self.err("handler called after a response was queued")
             if rq["failed"]:
@@ -726,7 +880,7 @@ class ProtocolOracle:
             else:
                 if up:
                     self.err("upload data at the %s call site" % site)
-                if site == "final" and not rq["replied"]:
+                if site == "final" and not rq["replied"] and not rq.get("early"):
                     body = self.bodies.get((c, int(rq["r"])), None)
                     if body is not None and rq["taken"] != len(body):
                         self.err("final call although only %d of %d body bytes were taken" % (rq["taken"], len(body)))
@@ -747,6 +901,22 @@ class ProtocolOracle:
                 if rq["replied"]:
                     self.err("second response accepted for one request")
                 rq["replied"] = True
+                rq["interim"] = (d.get("code") == "102")
+                rq["kind"] = d.get("code")
+                if rq["site"] == 0:
+                    # accepted in state HEADERS_PROCESSED ("queued early"): the library refuses the rest of the upload
+                    rq["early"] = True
+        elif k == "upgrade":
+            if rq is None or not rq["replied"] or rq["kind"] != "101":
+                self.err("upgrade handler called without an accepted upgrade response for an open request")
+                return
+            if rq["upgraded"]:
+                self.err("upgrade handler called twice for one request")
+            if d.get("r") != rq["r"]:
+                self.err("upgrade handler called with the context of another request")
+            if d.get("aware") != "1" or d.get("susp") != "1":
+                self.err("upgrade handler called for a connection that is not (client aware, suspended)")
+            rq["upgraded"] = True
         elif k == "completed":
             if rq is None:
                 self.err("completion notification without a presented request (or a second one)")
@@ -771,7 +941,7 @@ class Spec:
     props_module = "Mhd.Props.C05"
     lean_targets = ["Mhd.Props.C05", "drv_sm"]
     required_theorems = ["Mhd.C05.protocol_accepts", "Mhd.C05.protocol_complete", "Mhd.C05.aware_iff_open_request",
-                         "Mhd.C05.closed_only_unaware", "Mhd.C05.protocol_accepts_fixed", "Mhd.C05.tree_f9_fixed",
+                         "Mhd.C05.closed_only_unaware", "Mhd.C05.upgraded_holds_no_response", "Mhd.C05.protocol_accepts_fixed", "Mhd.C05.tree_f9_fixed",
                          "Mhd.C05.tree_other_repairs", "Mhd.C05.protocol_accepts_tree", "Mhd.C05.witness_f9",
                          "Mhd.C05.witness_alloc_bypass", "Mhd.C05.witness_epoll_bypass", "Mhd.C05.witness_f14",
                          "Mhd.C05.witness_f14_double_completion"]
@@ -783,8 +953,9 @@ class Spec:
                     "scheduling glue lean/Driver/SM.lean (event loop, socketpair abstraction; its traces are re-run through the model)",
                     "harness/h_sm.c, gcc, ASan/UBSan/LSan"]
     assumptions = ["HTTP parsers abstracted to tokens (what each byte position completes is given by the generator)",
-                   "application: no 102-Processing and no upgrade responses; handler consumes at most what it is shown; "
-                   "MHD_queue_response outside the handler only for a request the application has been shown",
+                   "application: handler consumes at most what it is shown; MHD_queue_response outside the handler only for a request "
+                   "the application has been shown; interim responses: 102 only (other 1xx codes end the request like a final one, as in "
+                   "the code); upgrade: non-TLS daemon, the upgraded socket itself is not used, MHD_UPGRADE_ACTION_CLOSE or daemon stop ends it",
                    "external polling modes (select, epoll); thread-per-connection shutdown path (mark_closed_ only) not modelled",
                    "the daemon applies the connection events of Mhd.ConnSM.Ev only (cleanup only after cleanup_connection / close_connection)",
                    "completeness of the upload (all body bytes presented before the first final call) is checked by the oracle on the real "
@@ -811,7 +982,7 @@ class Spec:
             if hl is None or ml is None:
                 continue
             stats["cases"] += 1
-            orc = ProtocolOracle(cs.bodies)
+            orc = ProtocolOracle(cs.bodies, f30=getattr(self, "f30_run", True))
             for l in hl:
                 try:
                     orc.feed(l)
@@ -819,6 +990,7 @@ class Spec:
                     if not (hrc != 0 and l is hl[-1]):      # a truncated last line belongs to the crash below
                         orc.err("malformed log record: " + l[:100])
             complete = any(l == "stopped" for l in hl)
+            stats["f30_null_extra"] = stats.get("f30_null_extra", 0) + orc.f30_seen
             if orc.errors:
                 flagged += 1
                 failures.append(vlib.Failure("oracle", case_signature(cs, orc.errors[0]), "; ".join(orc.errors), cs.lines, "sm"))
@@ -853,6 +1025,11 @@ class Spec:
                         stats["states"][t.split(":")[1]] = stats["states"].get(t.split(":")[1], 0) + 1
                 stats["sigs"].add(tuple(t for t in toks if not t.startswith("sst")))
                 stats["handler_calls"] += sum(1 for t in toks if t in ("first", "final") or t.startswith("up:"))
+                stats["interim_continuations"] += sum(1 for t in toks if t == "interim")
+                stats["upgrades"] += sum(1 for t in toks if t == "upgrade")
+            stats["upgrade_responses_accepted"] += sum(1 for l in hl if l.startswith("queued ") and " code=101 -> 1" in l)
+            stats["upgrades_closed_by_application"] += sum(1 for l in hl if l.startswith("up-close ") and l.endswith("-> 1"))
+            stats["interim_responses_accepted"] += sum(1 for l in hl if l.startswith("queued ") and " code=102 -> 1" in l)
         if hrc != 0:
             leak = "LeakSanitizer" in herr
             if not (leak and flagged):
@@ -870,7 +1047,8 @@ class Spec:
     def explore(self, ctx, boost):
         failures = []
         stats = {"cases": 0, "oracle_rejects": 0, "diffs": 0, "strict_drift": 0, "codes": {}, "states": {}, "sigs": set(),
-                 "handler_calls": 0, "oracle_only": 0, "release_everything_hits": 0}
+                 "handler_calls": 0, "oracle_only": 0, "release_everything_hits": 0, "interim_continuations": 0, "upgrades": 0,
+                 "upgrade_responses_accepted": 0, "upgrades_closed_by_application": 0, "interim_responses_accepted": 0}
         thorough = ctx.tier == "thorough"
         cases = []
         cdir = os.path.join(vlib.VERIF, "corpus", "sm")
@@ -885,8 +1063,19 @@ class Spec:
         nfault = len(cases) - ncorp
         cases += gen_outq_cases()
         noutq = len(cases) - ncorp - nfault
+        cases += gen_interim_upgrade_cases()
+        # finding F31 (repaired in /repo by ab938c0): the scripts always run and the NULL-extra oracle flag is always on, so that
+        # a return of the defect is reported; the syntactic probe only goes into the evidence
+        f30_fixed = interim_buffer_fixed()
+        f30_run = True
+        global INTERIM_ONLY_LAST
+        INTERIM_ONLY_LAST = not f30_run
+        self.f30_run = f30_run
+        if f30_run:
+            cases += gen_interim_pipelined_cases()
+        niu = len(cases) - ncorp - nfault - noutq
         cases += gen_poolfull_cases(thorough)
-        npool = len(cases) - ncorp - nfault - noutq
+        npool = len(cases) - ncorp - nfault - noutq - niu
         # bounded-exhaustive: one action at every placement x every handler behaviour, on every shape
         placements = []
         shapes = NORMAL_SHAPES + SMALL_SHAPES
@@ -909,7 +1098,8 @@ class Spec:
                 k = (j + off) % 4
                 combos = [(("select", "epoll")[k % 2], k != 1)]
             for mode, uri in combos:
-                cs = gen_placement(shapes[si], mode, BEHS[bi], p, action, "pipeline" if (j % 3 == 0) else "end", mid, urilog=uri)
+                cs = gen_placement(shapes[si], mode, BEHS[bi], p, action, "pipeline" if (j % 3 == 0) else "end", mid, urilog=uri,
+                                   upclose=(((j // 3) + off) % 2 == 0))
                 if cs is not None:
                     cases.append(cs); npl += 1
         nrand = (30000 if thorough else 3000) * (3 if boost else 1)
@@ -929,12 +1119,24 @@ class Spec:
                        "fragments and actions; plus fixed fault-injection scripts and scripts with MHD_queue_response outside the handler"
                        % (nplace_all, "each in both polling modes, with and without URI-log callback" if thorough else
                           "polling mode and URI-log registration alternate from point to point"),
-               "samples": [cases[ncorp + nfault + noutq + npool].lines if len(cases) > ncorp + nfault + noutq + npool else [], cases[-1].lines],
-               "placements": npl, "outside_handler_reply_scripts": noutq, "pool_nearly_full_error_reply_histories (oracle only)": npool, "placement_grid_per_mode": nplace_all, "random_histories": nrand, "fault_scripts": nfault,
+               "samples": [cases[ncorp + nfault + noutq + niu + npool].lines if len(cases) > ncorp + nfault + noutq + niu + npool else [], cases[-1].lines],
+               "placements": npl, "outside_handler_reply_scripts": noutq, "interim_upgrade_scripts": niu,
+               "interim_reply_with_pipelined_bytes (F30)": ("run (connection_shrink_read_buffer keeps an exactly sized buffer)" if f30_fixed else
+                                                            "run although the tree lacks the repair (C05_F30=1)" if f30_run else
+                                                            "NOT run: the tree lacks the F30 repair (pipelined bytes behind a request answered with a "
+                                                            "102 reply are lost; set C05_F30=1 to see it); random histories use interim replies only "
+                                                            "for the last request of a connection"), "pool_nearly_full_error_reply_histories (oracle only)": npool, "placement_grid_per_mode": nplace_all, "random_histories": nrand, "fault_scripts": nfault,
                "corpus": ncorp, "exhaustive": True,
                "exhaustive_domain": "the placement grid (shape x phase x mid x action x handler behaviour); modes x URI-log fully only in the thorough tier",
                "outcomes": {"completion_codes": stats["codes"], "settled_states": stats["states"], "handler_call_tokens": stats["handler_calls"],
                             "oracle_rejects": stats["oracle_rejects"], "canonical_diffs": stats["diffs"],
+                            "interim_102": {"responses_accepted": stats["interim_responses_accepted"],
+                                            "handler_asked_again_after_complete_interim_reply": stats["interim_continuations"]},
+                            "upgrade_101": {"responses_accepted": stats["upgrade_responses_accepted"],
+                                            "upgrade_handler_calls": stats["upgrades"],
+                                            "closed_by_application (the others by daemon stop)": stats["upgrades_closed_by_application"]},
+                            "upgrade handler given a NULL extra-data pointer with non-zero size (F30; %s)" %
+                            ("flagged" if f30_run else "NOT flagged, see interim_reply_with_pipelined_bytes"): stats.get("f30_null_extra", 0),
                             "oracle_only_histories": stats["oracle_only"],
                             "of_these_reaching_the_release_everything_branch": stats["release_everything_hits"],
                             "strict_partition_drift (reported, not an alarm)": stats["strict_drift"]}}
@@ -949,7 +1151,8 @@ def replay(ctx, path):
     cs.lines = ["case replay"] + [l for l in lines if not l.startswith("case ")]
     fl = []
     st = {"cases": 0, "oracle_rejects": 0, "diffs": 0, "strict_drift": 0, "codes": {}, "states": {}, "sigs": set(), "handler_calls": 0,
-          "oracle_only": 0, "release_everything_hits": 0}
+          "oracle_only": 0, "release_everything_hits": 0, "interim_continuations": 0, "upgrades": 0,
+          "upgrade_responses_accepted": 0, "upgrades_closed_by_application": 0, "interim_responses_accepted": 0}
     sp.run_batch([cs], fl, st)
     hout, _, _ = vlib.run_lines(sp.harness, cs.lines)
     mout, _, _ = vlib.run_lines(sp.driver, cs.lines)
